@@ -135,13 +135,14 @@ def run(pid, tier, seed, work, a, t0):
             continue
         solver_s += r.get('solver_s', 0)
         fn_under_contract.add(r['enforce'])
-        cnt = {'P': 0, 'S': 0, 'U': 0, 'R': 0}
+        cnt = {'P': 0, 'S': 0, 'U': 0, 'R': 0, 'T': 0}
         fails = []
         undecided = []
         reach_ok = reach_bad = 0
         finfo = builts[r['unit']]['L'].fn_info.get(r['enforce'], {})
         dead_ok = (finfo.get('spec') or {}).get('dead_ok', []) + list(p.get('dead_ok', []))
         dead_seen = []
+        tool_limits = []
         for o in r['obligations']:
             c = pipeline.classify(o)
             cnt[c] += 1
@@ -157,6 +158,10 @@ def run(pid, tier, seed, work, a, t0):
                 continue
             if o['status'] == 'SUCCESS':
                 continue
+            if c == 'T':
+                undecided.append(o)
+                tool_limits.append(o)
+                continue
             if o['status'] == 'FAILURE':
                 fails.append((c, o))
             else:
@@ -168,6 +173,9 @@ def run(pid, tier, seed, work, a, t0):
             continue
         if reach_ok == 0:
             errors.append('%s/%s: no reachability marker fired inside %s (contradictory precondition?)' % (r['unit'], r['proof'], r['enforce']))
+            continue
+        if tool_limits:
+            errors.append('%s/%s: tool limitation: %s' % (r['unit'], r['proof'], tool_limits[0]['desc']))
             continue
         unw = [o for c, o in fails if c == 'U']
         if unw:
